@@ -217,7 +217,27 @@ def c15(chk, thorough):
     chk.floor('LY.subscript', 10)
 
 
+def c19(chk, thorough):
+    from . import dims
+    chk.explanation = (
+        'Decides the unit-independence clause of C19 ("evaluation does not depend on the units of x"): dimensional homogeneity '
+        '(units-of-measure inference, dimensions X^a Y^b solved as a linear system over Q) of cubic_spline_interpolation, '
+        'cubic_spline_predict, interpolate and curve_area: coefficient formulas, piece lookup, area accumulation; curve_area '
+        'returns X*Y. Sentinel tests against MISSING are exempt by construction. NOT decided: interpolation conditions, C2 '
+        'continuity, exactness on lines, additivity of the area, everything about the simplex minimiser.')
+    chk.assumptions = ['seeds: column 0 of xy/interp_xy and the abscissa vector are X, column 1 and the predicted vector are Y',
+                       'a numeric literal is dimensionless when added/compared, imposes nothing when stored or used as a factor; 0 is polymorphic']
+    prog = load_program(chk, ['interpolate.c', 'numeric.c'])
+    an = dims.run(chk, prog)
+    if an.n_constraints < 60:
+        chk.broke('only %d dimension constraints generated, floor 60' % an.n_constraints)
+    inf = chk.extra.get('inferred_dimensions', {})
+    if inf.get('S[:, 2]') == 'undetermined' and not chk.findings:
+        chk.broke('the dimension of the spline coefficient columns could not be inferred')
+
+
 CHECKS = {
+    'C19': c19,
     'C10': c10,
     'C15': c15,
     'C08': c08,
